@@ -116,7 +116,8 @@ type Sim struct {
 	InnerG      int   // inner yield points: after each resume the gap to the next inner yield is Draw(InnerG), 0 = none
 	InnerBudget int   // inner yields left in this run
 	innerGap    int
-	StallMax    int // stall fault: a task pre-empted at an inner point is held back for Draw(StallMax) steps
+	InnerSites  uint64 // bit per site: steps starting at these sites may be pre-empted at inner points (0 = all)
+	StallMax    int    // stall fault: a task pre-empted at an inner point is held back for Draw(StallMax) steps
 	spawned     []*Task
 
 	// measurements
@@ -484,7 +485,7 @@ func (s *Sim) Run(estSteps int) {
 		}
 		t := runnable[idx]
 		s.innerGap = 0
-		if s.InnerG > 0 && s.InnerBudget > 0 {
+		if s.InnerG > 0 && s.InnerBudget > 0 && (s.InnerSites == 0 || s.InnerSites&(1<<uint(t.parked)) != 0) {
 			s.innerGap = s.Sched.Draw(s.InnerG)
 		}
 		s.step++
